@@ -85,7 +85,14 @@ Theorem C10_thresholds : forall fw t, 0 <= t < 2 ^ 46 -> thr_ok_b fw tol t = tru
 Proof. exact thr_ok_flocq. Qed.
 Print Assumptions C10_thresholds.
 
-(* ... hence, unconditionally for total weights below 2^46: *)
+(* ... hence, unconditionally for total weights below 2^46: termination for every pool size *)
+Theorem C10_median_terminates_all : forall (T fuel : nat) fw ws tot,
+  ws <> [] -> 0 <= tot < 2 ^ 46 -> (Nat.log2 (length ws) + 1 <= fuel)%nat ->
+  exists p w, median_impl fuel T fw ws tot = Ok (p, w).
+Proof. exact (median_terminates_all cfg_impl C10_literals eq_refl). Qed.
+Print Assumptions C10_median_terminates_all.
+
+(* ... and the whole of Grid::rcb: *)
 Theorem C10_gridrcb_boxes_all : forall fuel T fw ds ws k,
   wf_grid ds ws -> Forall (fun s => (1 <= s)%nat) ds -> Forall (fun w => 0 <= w) ws ->
   sumZ ws < 2 ^ 46 ->
